@@ -206,11 +206,11 @@ def execute(check, tier):
     if errors:
         print("HARNESS-ERROR property=%s %d task(s) crashed inside the harness:\n%s" % (check.id, len(errors), errors[0]))
         return 2
+    nondet = None
     for idx, r in audit:
         if r.digest != results[idx].digest:
-            print("HARNESS-ERROR property=%s nondeterministic observation on task %d: %r vs %r" % (
-                check.id, idx, results[idx].digest, r.digest))
-            return 2
+            nondet = "task %d: %s vs %s" % (idx, repr(results[idx].digest)[:300], repr(r.digest)[:300])
+            break
     for r in results:
         agg.evals += r.evals
         agg.nontrivial |= r.nontrivial
@@ -221,7 +221,16 @@ def execute(check, tier):
             agg.samples.append(r.samples[0])
         if hasattr(check, "merge"):
             check.merge(agg, r)
-    return finish(check, agg, tier, sd, t0, audited=len(audit))
+    rc = finish(check, agg, tier, sd, t0, audited=len(audit))
+    if nondet:
+        # The same task gave different observations in two worker processes. If violations were found they are reported
+        # (an implementation whose answers depend on process history is exactly what several properties forbid); if not,
+        # nothing this run observed can be trusted: harness error.
+        print("[%s] determinism audit: observations differ between two executions of the same task (%s)" % (check.id, nondet))
+        if rc == 0:
+            print("HARNESS-ERROR property=%s nondeterministic observation without any violation: %s" % (check.id, nondet))
+            return 2
+    return rc
 
 
 def finish(check, agg, tier, sd, t0, audited=0):
